@@ -336,6 +336,7 @@ func runC16(e *Engine, r *Report) {
 	ruleChunkFileSync(e, r)
 	ruleSnapshotWriterClose(e, r)
 	ruleSyncUnconditional(e, r)
+	ruleCreatedFileSync(e, r, 1, "internal/fileutil", "internal/server", "internal/transport", "internal/rsm", "")
 }
 
 // dependsOnGuard: some branch condition on the way to `in` depends on a pred value.
